@@ -601,15 +601,20 @@ def _dispatch_log_or_error(
             wire_batch_logger.debug("Classify batch: zero-row, no log keys -> data")
         return False
 
-    level_str = level_bytes.decode()
-    message_str = message_bytes.decode()
+    level_str = level_bytes.decode("utf-8", "replace")
+    message_str = message_bytes.decode("utf-8", "replace")
 
     # Extract extra info (traceback, exception_type, etc.)
     raw_extra_data: dict[str, object] = {}
     raw_extra = custom_metadata.get(LOG_EXTRA_KEY)
     if raw_extra is not None:
-        with contextlib.suppress(json.JSONDecodeError):
-            raw_extra_data = json.loads(raw_extra.decode())
+        # ``log_extra`` is free-form peer data: anything that is not a JSON
+        # object (invalid JSON, non-UTF-8 bytes, arrays, scalars) carries no
+        # extras rather than failing the call.
+        with contextlib.suppress(ValueError, RecursionError):
+            parsed_extra = json.loads(raw_extra.decode())
+            if isinstance(parsed_extra, dict):
+                raw_extra_data = parsed_extra
 
     # Extract request_id from batch metadata
     request_id_bytes = custom_metadata.get(REQUEST_ID_KEY)
@@ -645,7 +650,15 @@ def _dispatch_log_or_error(
         extra["server_id"] = server_id_bytes.decode()
     if request_id:
         extra["request_id"] = request_id
-    msg = Message(Level(level_str), message_str, **extra)
+    try:
+        level = Level(level_str)
+    except ValueError:
+        # Unknown severity from a peer: ignore the message, keep the call alive.
+        return True
+    # Assign extras directly: a peer may use any key, including ``level`` and
+    # ``message``, which cannot be passed through ``Message(**extra)``.
+    msg = Message(level, message_str)
+    msg.extra = dict(extra) if extra else None
     if on_log is not None:
         on_log(msg)
     return True
